@@ -117,6 +117,11 @@ func (x *Exec) value(st *State, fr *Frame, in ssa.Value, k func(*State)) bool {
 		it := Val{T: v.Type(), L: nil, Fn: v, Bindings: []Val{xv}}
 		st.regs[v] = it
 		st.ghost[fmt.Sprintf("iter!%p", v)] = x.idxConst(0)
+		if mt, ok := v.X.Type().Underlying().(*types.Map); ok && len(x.tc.leaves(mt.Elem())) == 1 && len(x.tc.leaves(mt.Key())) == 1 {
+			pk, _, ps, _ := x.mapArrays(st, mt)
+			st.ghost[fmt.Sprintf("iter!%p!p0", v)] = Select(x.heapArr(st, pk, ps), xv.L[0])
+			st.ghost[fmt.Sprintf("iter!%p!vis", v)] = &Term{Op: "constarr", S: ps.E, Args: []*Term{FalseT}}
+		}
 	case *ssa.Next:
 		x.next(st, fr, v)
 	case *ssa.Select:
@@ -807,6 +812,19 @@ func (x *Exec) valEq(st *State, a, b Val) *Term {
 	return And(es...)
 }
 
+// hasFreeBinder: the term mentions a variable bound by a contract quantifier (named NAME!qN).
+func hasFreeBinder(t *Term) bool {
+	if t.Op == "var" && strings.Contains(t.Name, "!q") {
+		return true
+	}
+	for _, a := range t.Args {
+		if hasFreeBinder(a) {
+			return true
+		}
+	}
+	return false
+}
+
 // strEq: content equality of two strings.
 func (x *Exec) strEq(st *State, a, b Val) *Term {
 	ca, oka := x.E.constStrOf(a)
@@ -825,6 +843,28 @@ func (x *Exec) strEq(st *State, a, b Val) *Term {
 			es = append(es, Eq(x.strByte(st, b, x.idxConst(int64(i))), x.intConst(big.NewInt(int64(ca[i])), types.Typ[types.Uint8])))
 		}
 		return And(es...)
+	}
+	if x.fc != nil {
+		if _, atoms := x.fc.Flags["streq"]; atoms {
+			// "flag streq atoms": the comparison is an atom str.eq(a, b) (strings are immutable, so
+			// it is a function of the two string headers); its definition is added once per
+			// ground pair: str.eq ==> same length and bytes; !str.eq ==> a length or byte differs.
+			atom := App("str.eq", BoolS, a.L[0], a.L[1], a.L[2], b.L[0], b.L[1], b.L[2])
+			key := atom.String()
+			if !hasFreeBinder(atom) && !st.defined[key] {
+				if st.defined == nil {
+					st.defined = map[string]bool{}
+				}
+				st.defined[key] = true
+				k := x.E.fresh("k", IntS)
+				body := Implies(And(Le(IntC(0), k), Lt(k, a.L[2])), Eq(x.strByte(st, a, k), x.strByte(st, b, k)))
+				st.assume(Implies(atom, And(Eq(a.L[2], b.L[2]), Forall([]*Term{k}, body))))
+				sk := x.E.fresh("sk.streq", IntS)
+				st.assume(Implies(Not(atom), Or(Not(Eq(a.L[2], b.L[2])),
+					And(Le(IntC(0), sk), Lt(sk, a.L[2]), Not(Eq(x.strByte(st, a, sk), x.strByte(st, b, sk)))))))
+			}
+			return atom
+		}
 	}
 	// general: uninterpreted extensional equality with the defining axiom as hypotheses
 	k := x.E.fresh("k", IntS)
@@ -1027,6 +1067,7 @@ func (x *Exec) typeAssert(st *State, fr *Frame, v *ssa.TypeAssert) {
 		} else {
 			a := &Addr{K: AHeap, Key: "box:" + typeKey(at), Ref: iv.L[1], T: at, contT: at}
 			val = x.loadAddr(st, a)
+			st.assume(Implies(ok, x.typeInv(val, st)))
 		}
 	}
 	if v.CommaOk {
